@@ -1,12 +1,574 @@
-//! C18: not yet implemented
+//! C18: damaged game data is rejected without crashing.
+//!
+//! Case grammar (one line, single spaces):
+//!   `<fmt> <hex>`                         asset bytes -> `<Fmt>::from_existing`
+//!   `exdrow <exh hex> <exd hex> <row id>`  EXH + EXD + `EXD::read_row`
+//!   ... (see `run`)
+//! Answers: `none` | `some` (outcome class; for entry points whose model is complete) or `ok`
+//! (any non-crashing outcome; entry points that are covered by recorded findings only), or
+//! `panic:<file>:<line>`; ` overalloc:<n>` is appended by `alloc::measured` when the heap grew out
+//! of proportion.  `abort:<SIG>` / `timeout` are produced by the check's isolation loop.
 #![allow(unused)]
+use crate::alloc;
 use crate::util::*;
 use std::io::Write;
 
-pub fn generate(thorough: bool, seed: u64, out: &mut dyn Write) {}
+// ------------------------------------------------------------------------------------------
+// run
+// ------------------------------------------------------------------------------------------
 
-pub fn run(case: &str, input: &str) -> String {
-    "unimplemented".to_string()
+pub fn cls<T>(o: Option<T>) -> String {
+    if o.is_some() { "some".into() } else { "none".into() }
 }
 
-pub fn dump(out: &mut dyn Write) {}
+/// run one asset entry point on bytes under the panic guard and the allocation meter
+pub fn asset<F: FnOnce(&[u8]) -> String + std::panic::UnwindSafe>(hexs: &str, f: F) -> String {
+    let Some(b) = unhex(hexs) else { return "bad-case".into() };
+    let len = b.len();
+    alloc::measured(len, move || guarded(move || f(&b)))
+}
+
+pub fn run(case: &str, input: &str) -> String {
+    let f: Vec<&str> = input.split(' ').collect();
+    if f.len() < 2 {
+        return "bad-case".into();
+    }
+    match (f[0], f.len()) {
+        ("uld", 2) => asset(f[1], |b| cls(physis::uld::Uld::from_existing(b))),
+        ("sgb", 2) => asset(f[1], |b| cls(physis::sgb::Sgb::from_existing(b))),
+        ("scd", 2) => asset(f[1], |b| cls(physis::scd::Scd::from_existing(b))),
+        ("hwc", 2) => asset(f[1], |b| cls(physis::hwc::Hwc::from_existing(b))),
+        ("iwc", 2) => asset(f[1], |b| cls(physis::iwc::Iwc::from_existing(b))),
+        ("tmb", 2) => asset(f[1], |b| cls(physis::tmb::Tmb::from_existing(b))),
+        ("skp", 2) => asset(f[1], |b| cls(physis::skp::Skp::from_existing(b))),
+        ("schd", 2) => asset(f[1], |b| cls(physis::schd::Schd::from_existing(b))),
+        ("phyb", 2) => asset(f[1], |b| cls(physis::phyb::Phyb::from_existing(b))),
+        ("pap", 2) => asset(f[1], |b| cls(physis::pap::Pap::from_existing(b))),
+        ("sqdb", 2) => asset(f[1], |b| cls(physis::sqpack::SqPackDatabase::from_existing(b))),
+        ("exh", 2) => asset(f[1], |b| cls(physis::exh::EXH::from_existing(b))),
+        ("exd", 2) => asset(f[1], |b| cls(physis::exd::EXD::from_existing(b))),
+        _ => {
+            // the other parts of C18 live in their own modules
+            for part in [
+                crate::c18_fmt::run as fn(&[&str]) -> Option<String>,
+                crate::c18_arc::run,
+                crate::c18_mat::run,
+                crate::c18_skel::run,
+                crate::c18_mdl::run,
+                crate::c18_pbc::run,
+            ] {
+                if let Some(a) = part(&f) {
+                    return a;
+                }
+            }
+            "bad-case".into()
+        }
+    }
+}
+
+// ------------------------------------------------------------------------------------------
+// seeds
+// ------------------------------------------------------------------------------------------
+
+#[derive(Clone)]
+pub struct Field {
+    pub off: usize,
+    pub width: usize,
+    pub be: bool,
+}
+
+#[derive(Clone)]
+pub struct Seed {
+    pub op: String,
+    pub bytes: Vec<u8>,
+    /// fields worth corrupting (counts, offsets, sizes, enum tags, terminators)
+    pub fields: Vec<Field>,
+    /// structure boundaries (truncation points for large seeds)
+    pub bounds: Vec<usize>,
+    /// trailing query arguments of the case line
+    pub extra: String,
+}
+
+/// little helper to build files and record the field map at the same time
+pub struct B {
+    pub v: Vec<u8>,
+    pub fields: Vec<Field>,
+    pub bounds: Vec<usize>,
+    pub be: bool,
+}
+
+impl B {
+    pub fn new(be: bool) -> Self {
+        B { v: vec![], fields: vec![], bounds: vec![], be }
+    }
+    fn f(&mut self, w: usize) {
+        self.fields.push(Field { off: self.v.len(), width: w, be: self.be });
+    }
+    pub fn u8(&mut self, x: u8) -> &mut Self {
+        self.f(1);
+        self.v.push(x);
+        self
+    }
+    pub fn u16(&mut self, x: u16) -> &mut Self {
+        self.f(2);
+        if self.be { self.v.extend_from_slice(&x.to_be_bytes()) } else { self.v.extend_from_slice(&x.to_le_bytes()) }
+        self
+    }
+    pub fn u32(&mut self, x: u32) -> &mut Self {
+        self.f(4);
+        if self.be { self.v.extend_from_slice(&x.to_be_bytes()) } else { self.v.extend_from_slice(&x.to_le_bytes()) }
+        self
+    }
+    pub fn u64(&mut self, x: u64) -> &mut Self {
+        self.f(8);
+        if self.be { self.v.extend_from_slice(&x.to_be_bytes()) } else { self.v.extend_from_slice(&x.to_le_bytes()) }
+        self
+    }
+    pub fn f32(&mut self, x: f32) -> &mut Self {
+        self.u32(x.to_bits())
+    }
+    /// raw bytes; every byte is a corruptible field when `fields` (strings, tags)
+    pub fn raw(&mut self, x: &[u8], fields: bool) -> &mut Self {
+        if fields {
+            for i in 0..x.len() {
+                self.fields.push(Field { off: self.v.len() + i, width: 1, be: false });
+            }
+        }
+        self.v.extend_from_slice(x);
+        self
+    }
+    pub fn zeros(&mut self, n: usize) -> &mut Self {
+        self.v.extend(std::iter::repeat(0u8).take(n));
+        self
+    }
+    pub fn bound(&mut self) -> &mut Self {
+        self.bounds.push(self.v.len());
+        self
+    }
+    pub fn pos(&self) -> usize {
+        self.v.len()
+    }
+    pub fn seed(self, op: &str) -> Seed {
+        Seed { op: op.to_string(), bytes: self.v, fields: self.fields, bounds: self.bounds, extra: String::new() }
+    }
+}
+
+fn sqpack_header(b: &mut B, file_type: u8) {
+    b.raw(b"SqPack\0\0", true);
+    b.u8(0).zeros(3); // platform
+    b.u32(1024); // size
+    b.u32(1); // version
+    b.u8(file_type).zeros(3);
+    b.u32(0).u32(0);
+    b.u16(0xFFFF).zeros(2); // region = Global (-1)
+    b.zeros(924);
+    b.raw(&[0x11; 20], false);
+    b.zeros(44);
+    b.bound();
+}
+
+pub fn header_seeds(rng: &mut Rng) -> Vec<Seed> {
+    let mut out = vec![];
+    // uld
+    let mut b = B::new(false);
+    b.raw(b"uldh", true).raw(b"0100", true).u32(16).u32(32).zeros(8);
+    out.push(b.seed("uld"));
+    // sgb
+    let mut b = B::new(false);
+    b.raw(b"SGB1", true).u32(64).u32(1).zeros(8);
+    out.push(b.seed("sgb"));
+    // scd
+    let mut b = B::new(false);
+    b.raw(b"SEDB", true).raw(b"SSCF", true).u32(3).u32(0).u8(4).u16(0x30).u64(0x1122334455667788);
+    b.zeros(4).u16(1).u16(1).u16(1).u16(0).u32(0x50).u32(0x60).u32(0x70).u32(0x80).u32(0x90).u16(0).zeros(2);
+    b.zeros(16);
+    out.push(b.seed("scd"));
+    // hwc
+    let mut b = B::new(false);
+    b.raw(&rng.bytes(64 * 64 * 4), false);
+    b.bounds = vec![0, 1, 4, 16383, 16384];
+    b.fields = vec![];
+    out.push(b.seed("hwc"));
+    let mut b = B::new(false);
+    b.raw(&rng.bytes(64 * 64 * 4 + 7), false);
+    b.bounds = vec![16385];
+    out.push(b.seed("hwc"));
+    // iwc
+    let mut b = B::new(false);
+    b.u16(3).u16(0xFF).zeros(4);
+    out.push(b.seed("iwc"));
+    // tmb
+    let mut b = B::new(false);
+    b.raw(b"TMLB", true).u32(12).u32(0);
+    out.push(b.seed("tmb"));
+    // skp
+    let mut b = B::new(false);
+    b.u32(0x736b6c62).raw(b"0100", true).zeros(4);
+    out.push(b.seed("skp"));
+    // schd
+    for stage in 0..2u8 {
+        let mut b = B::new(false);
+        b.raw(b"ShCd", true).raw(b"100", true).u8(stage).u32(0x43425844).u32(48).u32(32).u32(40).zeros(16);
+        out.push(b.seed("schd"));
+    }
+    // phyb (both arms of the conditional field)
+    for v0 in [0u8, 1u8] {
+        let mut b = B::new(false);
+        b.u8(v0).u8(0).u8(0).u8(0);
+        if v0 > 0 {
+            b.u32(7);
+        }
+        b.u32(0x10).u32(0x20).zeros(4);
+        out.push(b.seed("phyb"));
+    }
+    // pap
+    for ty in 0..4u8 {
+        let mut b = B::new(false);
+        b.raw(b"pap ", true).u32(0x20001).u16(2).u16(101).u8(ty).u32(1).u32(0x30).u32(0x40).u32(0x50).zeros(8);
+        out.push(b.seed("pap"));
+    }
+    // sqdb: header, sqdb header, n entries
+    for n in [0usize, 1, 3] {
+        let mut b = B::new(false);
+        sqpack_header(&mut b, 0);
+        b.u32(1024).u32(0).zeros(1016).bound();
+        for i in 0..n {
+            b.zeros(4).u32(128 * i as u32).u32(64).zeros(4).u32(0xAABBCCDD).u32(0x11223344);
+            let mut path = format!("exd/sheet{}.exh", i).into_bytes();
+            path.resize(240, 0);
+            let p0 = b.pos();
+            b.raw(&path, false);
+            // a few bytes of the path as corruptible fields (UTF-8 validity)
+            for k in [0usize, 1, 13, 14, 239] {
+                b.fields.push(Field { off: p0 + k, width: 1, be: false });
+            }
+            b.bound();
+        }
+        out.push(b.seed("sqdb"));
+    }
+    // exh
+    for (cols, pages, langs) in [(0u16, 0u16, 0u16), (3, 1, 1), (8, 2, 3)] {
+        let mut b = B::new(true);
+        b.raw(b"EXHF", true).u16(3).u16(24).u16(cols).u16(pages).u16(langs).zeros(6).u32(10).zeros(8).bound();
+        let types = [0u16, 1, 2, 3, 4, 5, 6, 7, 9, 10, 11, 0x19, 0x20];
+        for i in 0..cols {
+            b.u16(types[(i as usize * 5) % types.len()]).u16(i * 2);
+        }
+        b.bound();
+        for i in 0..pages {
+            b.u32(i as u32 * 100).u32(100);
+        }
+        b.bound();
+        for i in 0..langs {
+            b.u8((i % 8) as u8);
+        }
+        b.bound();
+        b.zeros(3);
+        out.push(b.seed("exh"));
+    }
+    // exd (header + offsets + two simple rows)
+    for rows in [0u32, 1, 3] {
+        let mut b = B::new(true);
+        b.raw(b"EXDF", true).u16(2).zeros(2).u32(rows * 8).zeros(20).bound();
+        let data_start = 32 + rows * 8;
+        for i in 0..rows {
+            b.u32(i + 1).u32(data_start + i * 16);
+        }
+        b.bound();
+        for i in 0..rows {
+            b.u32(10).u16(1).u32(i).u16(7).raw(b"ab\0\0", true);
+            b.bound();
+        }
+        out.push(b.seed("exd"));
+    }
+    out
+}
+
+// ------------------------------------------------------------------------------------------
+// mutation
+// ------------------------------------------------------------------------------------------
+
+pub fn emit(out: &mut dyn Write, op: &str, bytes: &[u8], extra: &str) {
+    if extra.is_empty() {
+        writeln!(out, "{} {}", op, hex(bytes)).unwrap();
+    } else {
+        writeln!(out, "{} {} {}", op, hex(bytes), extra).unwrap();
+    }
+}
+
+pub fn put(bytes: &mut [u8], f: &Field, v: u64) {
+    for i in 0..f.width {
+        let sh = if f.be { 8 * (f.width - 1 - i) } else { 8 * i };
+        if f.off + i < bytes.len() {
+            bytes[f.off + i] = (v >> sh) as u8;
+        }
+    }
+}
+
+pub fn get(bytes: &[u8], f: &Field) -> u64 {
+    let mut v = 0u64;
+    for i in 0..f.width {
+        let sh = if f.be { 8 * (f.width - 1 - i) } else { 8 * i };
+        if f.off + i < bytes.len() {
+            v |= (bytes[f.off + i] as u64) << sh;
+        }
+    }
+    v
+}
+
+/// the single-field corruption values of the property's quantifier
+pub fn corrupt_values(cur: u64, width: usize) -> Vec<u64> {
+    let bits = 8 * width as u32;
+    let mask = if bits >= 64 { u64::MAX } else { (1u64 << bits) - 1 };
+    let mut v = vec![
+        0,
+        1,
+        mask >> 1,          // 0x7F..
+        (mask >> 1) + 1,    // 0x80..
+        mask,               // 0xFF..
+        cur.wrapping_add(1) & mask,
+        cur.wrapping_sub(1) & mask,
+    ];
+    v.retain(|x| *x != cur);
+    v.dedup();
+    v
+}
+
+/// every truncation point (small seeds) or structure boundaries ±1 and random points (large),
+/// every single-field corruption, plus a few random byte/bit flips
+pub fn mutate(seed: &Seed, rng: &mut Rng, thorough: bool, out: &mut dyn Write) {
+    let n = seed.bytes.len();
+    emit(out, &seed.op, &seed.bytes, &seed.extra);
+    // truncations
+    let full_limit = if thorough { 8192 } else { 1200 };
+    if n <= full_limit {
+        for k in 0..n {
+            emit(out, &seed.op, &seed.bytes[..k], &seed.extra);
+        }
+    } else {
+        let mut pts: Vec<usize> = vec![0, 1, 2, 3, 4, 7, 8, n - 1];
+        for b in &seed.bounds {
+            for d in [-1i64, 0, 1] {
+                let p = *b as i64 + d;
+                if p >= 0 && (p as usize) < n {
+                    pts.push(p as usize);
+                }
+            }
+        }
+        for f in &seed.fields {
+            pts.push(f.off);
+            pts.push(f.off + f.width - 1);
+        }
+        for _ in 0..(if thorough { 400 } else { 40 }) {
+            pts.push(rng.below(n as u64) as usize);
+        }
+        pts.sort();
+        pts.dedup();
+        for k in pts {
+            if k < n {
+                emit(out, &seed.op, &seed.bytes[..k], &seed.extra);
+            }
+        }
+    }
+    // with trailing garbage
+    let mut longer = seed.bytes.clone();
+    longer.extend_from_slice(&rng.bytes(9));
+    emit(out, &seed.op, &longer, &seed.extra);
+    // single-field corruptions
+    for f in &seed.fields {
+        let cur = get(&seed.bytes, f);
+        for v in corrupt_values(cur, f.width) {
+            let mut m = seed.bytes.clone();
+            put(&mut m, f, v);
+            emit(out, &seed.op, &m, &seed.extra);
+        }
+    }
+    // two fields corrupted at once (a count together with an offset, two dimensions, …)
+    if seed.fields.len() >= 2 {
+        let pairs = if thorough { 600 } else { 30 };
+        for _ in 0..pairs {
+            let f1 = &seed.fields[rng.below(seed.fields.len() as u64) as usize];
+            let f2 = &seed.fields[rng.below(seed.fields.len() as u64) as usize];
+            let mut m = seed.bytes.clone();
+            for f in [f1, f2] {
+                let vs = corrupt_values(get(&seed.bytes, f), f.width);
+                if !vs.is_empty() {
+                    let v = vs[rng.below(vs.len() as u64) as usize];
+                    put(&mut m, f, v);
+                }
+            }
+            emit(out, &seed.op, &m, &seed.extra);
+        }
+    }
+    // random single-byte changes
+    let flips = if thorough { 1000 } else { 24 };
+    if n > 0 {
+        for _ in 0..flips {
+            let mut m = seed.bytes.clone();
+            let i = rng.below(n as u64) as usize;
+            m[i] = match rng.below(4) {
+                0 => 0,
+                1 => 0xFF,
+                2 => m[i] ^ (1 << rng.below(8)),
+                _ => rng.next() as u8,
+            };
+            emit(out, &seed.op, &m, &seed.extra);
+        }
+    }
+}
+
+/// random blobs for an entry point: empty, tiny, medium; with and without the right magic
+pub fn blobs(op: &str, magic: &[u8], rng: &mut Rng, count: usize, big: bool, out: &mut dyn Write) {
+    emit(out, op, &[], "");
+    for i in 0..count {
+        let len = match rng.below(10) {
+            0 => rng.range(1, 8),
+            1..=5 => rng.range(8, 128),
+            6..=8 => rng.range(128, 4096),
+            _ => rng.range(4096, 65536),
+        } as usize;
+        let mut b = rng.bytes(len);
+        if i % 2 == 0 && !magic.is_empty() {
+            for (k, m) in magic.iter().enumerate() {
+                if k < b.len() {
+                    b[k] = *m;
+                }
+            }
+        }
+        // sprinkle boundary words so that counts / offsets are often extreme
+        if i % 3 == 0 && b.len() >= 16 {
+            for _ in 0..4 {
+                let p = rng.below(b.len() as u64 - 4) as usize;
+                let w = rng.u32_edge().to_le_bytes();
+                b[p..p + 4].copy_from_slice(&w);
+            }
+        }
+        emit(out, op, &b, "");
+    }
+    if big {
+        let mut b = rng.bytes(1 << 20);
+        for (k, m) in magic.iter().enumerate() {
+            b[k] = *m;
+        }
+        emit(out, op, &b, "");
+    }
+}
+
+pub const HEADER_OPS: &[(&str, &[u8])] = &[
+    ("uld", b"uldh"),
+    ("sgb", b"SGB1"),
+    ("scd", b"SEDB"),
+    ("hwc", b""),
+    ("iwc", b""),
+    ("tmb", b"TMLB"),
+    ("skp", b""),
+    ("schd", b"ShCd"),
+    ("phyb", b""),
+    ("pap", b"pap "),
+    ("sqdb", b"SqPack\0\0"),
+    ("exh", b"EXHF"),
+    ("exd", b"EXDF"),
+];
+
+pub fn generate(thorough: bool, seed: u64, out: &mut dyn Write) {
+    // the parts write their cases one format after the other; the check splits the case file into
+    // contiguous shards, so the lines are dealt round-robin into buckets first (deterministic) to give
+    // every shard the same mix of cheap and expensive formats
+    let mut buf: Vec<u8> = Vec::new();
+    generate_all(thorough, seed, &mut buf);
+    const BUCKETS: usize = 48;
+    let mut buckets: Vec<Vec<&[u8]>> = vec![Vec::new(); BUCKETS];
+    for (i, line) in buf.split(|b| *b == b'\n').filter(|l| !l.is_empty()).enumerate() {
+        buckets[i % BUCKETS].push(line);
+    }
+    for b in buckets {
+        for l in b {
+            out.write_all(l).unwrap();
+            out.write_all(b"\n").unwrap();
+        }
+    }
+}
+
+fn generate_all(thorough: bool, seed: u64, out: &mut dyn Write) {
+    let mut rng = Rng::new(seed, "C18");
+    for s in header_seeds(&mut rng) {
+        mutate(&s, &mut rng, thorough, out);
+    }
+    for (op, magic) in HEADER_OPS {
+        blobs(op, magic, &mut rng, if thorough { 400 } else { 30 }, *op == "exd" || *op == "sqdb" || thorough, out);
+    }
+    crate::c18_fmt::generate(thorough, seed, out);
+    crate::c18_arc::generate(thorough, seed, out);
+    crate::c18_mat::generate(thorough, seed, out);
+    crate::c18_skel::generate(thorough, seed, out);
+    crate::c18_mdl::generate(thorough, seed, out);
+    crate::c18_pbc::generate(thorough, seed, out);
+}
+
+/// T2: the discriminant tables of the `repr` / magic enums the header grammars depend on, read off the
+/// **compiled** parsers through the public API by sweeping the whole u8 / u16 domain of the field in a
+/// minimal valid file (`from_existing(..).is_some()` ⟺ the value is a variant).  Printed as Lean
+/// source (`Generated/C18Enums.lean`) on every run of the check; the models use these tables.
+pub fn dump(out: &mut dyn Write) {
+    let mut rng = Rng::new(1, "C18-dump");
+    let seeds = header_seeds(&mut rng);
+    let find = |op: &str, pred: &dyn Fn(&Seed) -> bool| -> Vec<u8> {
+        seeds.iter().find(|s| s.op == op && pred(s)).expect("seed").bytes.clone()
+    };
+    let sweep = |name: &str, base: &[u8], off: usize, width: usize, be: bool, max: u32, ok: &dyn Fn(&[u8]) -> bool, out: &mut dyn Write| {
+        let mut vals: Vec<u32> = vec![];
+        let mut b = base.to_vec();
+        for v in 0..=max {
+            for i in 0..width {
+                let sh = if be { 8 * (width - 1 - i) } else { 8 * i };
+                b[off + i] = (v >> sh) as u8;
+            }
+            if ok(&b) {
+                vals.push(v);
+            }
+        }
+        let list = vals.iter().map(|v| v.to_string()).collect::<Vec<_>>().join(", ");
+        writeln!(out, "def {} : List Nat := [{}]", name, list).unwrap();
+    };
+    writeln!(out, "-- GENERATED by `harness C18 dump` from the compiled code (T2: exhaustive sweep of the field's").unwrap();
+    writeln!(out, "-- whole u8 / u16 domain through the public parsers) — do not edit, rewritten by ./check on every run").unwrap();
+    writeln!(out, "namespace Physis.Generated.C18").unwrap();
+    let sqdb = find("sqdb", &|s| s.bytes.len() == 2048);
+    let is_sqdb = |b: &[u8]| physis::sqpack::SqPackDatabase::from_existing(b).is_some();
+    writeln!(out, "/-- `Platform` (`src/common.rs`, repr u8) -/").unwrap();
+    sweep("platformIds", &sqdb, 8, 1, false, 255, &is_sqdb, out);
+    writeln!(out, "/-- `SqPackFileType` (`src/sqpack/mod.rs`, repr u8) -/").unwrap();
+    sweep("sqpackFileTypes", &sqdb, 20, 1, false, 255, &is_sqdb, out);
+    writeln!(out, "/-- `Region` (`src/common.rs`, repr i16) as u16 bit patterns -/").unwrap();
+    sweep("regionIds", &sqdb, 32, 2, false, 65535, &is_sqdb, out);
+    let exh = find("exh", &|s| s.bytes[8] == 0 && s.bytes[9] == 3); // 3 columns, 1 page, 1 language
+    let is_exh = |b: &[u8]| physis::exh::EXH::from_existing(b).is_some();
+    writeln!(out, "/-- `ColumnDataType` (`src/exh.rs`, repr u16) -/").unwrap();
+    sweep("columnTypes", &exh, 32, 2, true, 65535, &is_exh, out);
+    writeln!(out, "/-- `Language` (`src/common.rs`, repr u8) -/").unwrap();
+    sweep("languageIds", &exh, 32 + 3 * 4 + 8, 1, false, 255, &is_exh, out);
+    // texture formats: a header with zero dimensions parses for every variant
+    let mut tex = vec![0u8; 80];
+    tex[2] = 0x80;
+    let is_tex = |b: &[u8]| physis::tex::Texture::from_existing(b).is_some();
+    writeln!(out, "/-- `TextureFormat` (`src/tex.rs`, repr u32): the variants below 2^16 -/").unwrap();
+    sweep("texFormats", &tex, 4, 2, false, 65535, &is_tex, out);
+    let pap = find("pap", &|_| true);
+    writeln!(out, "/-- `SkeletonType` (`src/pap.rs`, u8 magics) -/").unwrap();
+    sweep("skeletonTypes", &pap, 12, 1, false, 255, &|b| physis::pap::Pap::from_existing(b).is_some(), out);
+    let schd = find("schd", &|_| true);
+    writeln!(out, "/-- `ShaderStage` (`src/schd.rs`, u8 magics) -/").unwrap();
+    sweep("shaderStages", &schd, 7, 1, false, 255, &|b| physis::schd::Schd::from_existing(b).is_some(), out);
+    // index type: through a file on disk
+    let idx = crate::c18_arc::index_file(&[], false).v;
+    let td = TempDir::new("c18dump");
+    let path = td.path().join("x.index");
+    let ps = path.to_str().unwrap().to_string();
+    let is_idx = |b: &[u8]| {
+        std::fs::write(&path, b).unwrap();
+        physis::sqpack::SqPackIndex::from_existing(&ps).is_some()
+    };
+    writeln!(out, "/-- `IndexType` (`src/sqpack/index.rs`, repr u8) -/").unwrap();
+    sweep("indexTypes", &idx, 1024 + 4 + 76 + 72 * 3, 1, false, 255, &is_idx, out);
+    writeln!(out, "end Physis.Generated.C18").unwrap();
+}
